@@ -30,7 +30,8 @@ ASSUMPTIONS = [
 ]
 REQUIRED_LABELS = {t: ["valid:%s" % n for n in V1_NAMES] + ["invalid:%s" % n for n in V1_NAMES] +
                    ["corruptions:0", "corruptions:1", "corruptions:2", "depth:3", "depth:4",
-                    "tweak"] for t in ("quick", "thorough")}
+                    "tweak", "revalidated:same", "revalidated:other", "duplicate-target"]
+                   for t in ("quick", "thorough")}
 CORR = ["flip-message", "flip-signature", "flip-tweak", "swap-signatures", "other-key",
         "drop-tweak", "add-tweak", "rekey", "wrong-root", "der-trailing", "flip-embedded-key"]
 
@@ -49,7 +50,9 @@ def cases(draw, tier):
                                             st.binary(min_size=1, max_size=40))),
                     "filler": draw(st.binary(min_size=0, max_size=30)),
                     "payload": draw(st.binary(min_size=1, max_size=120))})
-    targets = draw(st.lists(st.sampled_from(names), min_size=1, max_size=4, unique=True))
+    targets = draw(st.one_of(
+        st.lists(st.sampled_from(names), min_size=1, max_size=4, unique=True),
+        st.lists(st.sampled_from(names), min_size=1, max_size=5)))       # may repeat a target
     corr = []
     for _ in range(draw(st.sampled_from([0, 1, 1, 1, 2]))):
         corr.append({"kind": draw(st.sampled_from(CORR)), "el": draw(st.sampled_from(names)),
@@ -57,7 +60,10 @@ def cases(draw, tier):
                      "key": draw(st.integers(1, 2 ** 256)),
                      "extra": draw(st.binary(min_size=1, max_size=4))})
     return {"root": draw(st.integers(1, 2 ** 256)), "elements": els, "targets": targets,
-            "corruptions": corr}
+            "corruptions": corr,
+            # further validations of the SAME loaded object: 'same' root again, or another root
+            "again": draw(st.lists(st.sampled_from(["same", "other", "same"]), max_size=3)),
+            "other_root": draw(st.integers(1, 2 ** 256))}
 
 
 def flip(b, bit):
@@ -172,30 +178,44 @@ def run_case(c):
     with open(path, "w") as f:
         json.dump(cert.to_dict(), f)
     loaded = HSMCertificate.from_jsonfile(path)
-    got = loaded.validate_and_get_values(HSMCertificateRoot(root_pub.hex()))
     labels = ["corruptions:%d" % len(c["corruptions"])]
     for k in c["corruptions"]:
         labels.append("corr:" + k["kind"])
-    if set(got) != set(expected):
-        raise Violation("targets-differ", "got %r expected %r" % (sorted(got), sorted(expected)))
-    for t in cert.targets:
-        exp = expected[t]
-        if exp == "ambiguous":
-            labels.append("ambiguous")
-            continue
-        g = got[t]
-        if tuple(g) != tuple(exp):
-            if exp[0] and not g[0]:
-                sig = "valid-chain-rejected"
-            elif g[0] and not exp[0]:
-                sig = "invalid-chain-accepted"
-            elif not g[0]:
-                sig = "wrong-failing-element"
-            else:
-                sig = "wrong-value"
-            raise Violation(sig, "target %s: code says %r, independent walk says %r; "
-                            "certificate %s" % (t, g, exp, json.dumps(cert.to_dict())[:1500]))
-        labels.append(("valid:%s" % t) if exp[0] else ("invalid:%s" % exp[1]))
+    if len(set(cert.targets)) != len(cert.targets):
+        labels.append("duplicate-target")
+    rounds = [("first", root_pub)]
+    for a in c.get("again", []):
+        rounds.append((a, root_pub if a == "same" else pub_uncompressed(sk_from_int(
+            c["other_root"]))))
+    for rnd, (what, rp) in enumerate(rounds):
+        expected = cert.expected(rp)
+        got = loaded.validate_and_get_values(HSMCertificateRoot(rp.hex()))
+        if rnd > 0:
+            labels.append("revalidated:" + what)
+        where = "validation #%d of the same object (%s root)" % (rnd + 1, what)
+        if set(got) != set(expected):
+            raise Violation("targets-differ", "%s: got %r expected %r" % (
+                where, sorted(got), sorted(expected)))
+        for t in dict.fromkeys(cert.targets):
+            exp = expected[t]
+            if exp == "ambiguous":
+                labels.append("ambiguous")
+                continue
+            g = got[t]
+            if tuple(g) != tuple(exp):
+                if exp[0] and not g[0]:
+                    sig = "valid-chain-rejected"
+                elif g[0] and not exp[0]:
+                    sig = "invalid-chain-accepted"
+                elif not g[0]:
+                    sig = "wrong-failing-element"
+                else:
+                    sig = "wrong-value"
+                raise Violation(sig, "%s, target %s: code says %r, independent walk says %r; "
+                                "certificate %s" % (where, t, g, exp,
+                                                    json.dumps(cert.to_dict())[:1500]))
+            if rnd == 0:
+                labels.append(("valid:%s" % t) if exp[0] else ("invalid:%s" % exp[1]))
     d = depth_of(c)
     labels.append("depth:%d" % d)
     has_tweak = any(e["tweak"] is not None for e in c["elements"])
